@@ -73,6 +73,7 @@ SurelyOutOfBand(c, band) == 2 * c.f - c.w < 2 * band.fmin - 2 \/ 2 * c.f + c.w >
 \*   gTot    observed power-weighted total gain input -> output       padObs  Edfa.att_in
 \*   poutObs Edfa.pout_db      poutTot  total output power            q       10 log10(h f B 1e3) (dBm)
 \*   nf      Edfa.nf of the channel    ase  ASE added, referred to the amplifier input (dBm)   gain  per-channel gain
+\*   nfRip   configured NF ripple at the channel frequency          gainFresh / nfFresh  same crossing on a fresh amplifier
 AmpPin(a)    == a.pinRaw - a.inVoa
 AmpEffOf(a)  == AmpEff(a.gainSet, a.pMax, AmpPin(a))
 AmpEffLaw(a, tol)  == Within(a.effObs, AmpEffOf(a), tol)
@@ -86,6 +87,15 @@ AmpFlatProfile(a, tol) == (a.tilt = 0 /\ a.ripple = 0) =>
                              \A i \in 1..Len(a.ch) : Within(a.ch[i].gain, AmpEffOf(a) - a.inVoa - a.outVoa, tol)
 \* quantum-limited ASE h f B NF referred to the input (NF = -inf: a noiseless booster adds nothing)
 AmpAseLaw(a, tol)  == \A i \in 1..Len(a.ch) : Within(a.ch[i].ase, Plus(a.ch[i].q, a.ch[i].nf), tol)
+\* NF follows the configured model per channel: the channel NF is the average NF plus the configured NF ripple AT THAT
+\* CHANNEL'S FREQUENCY (nfRip: the harness interpolates the configured table at the channel frequency), i.e. nf - nfRip
+\* is the same for all channels of the crossing (a noiseless amplifier, NF = -inf, is left aside)
+AmpNfRippleLaw(a, tol) == \A i, j \in 1..Len(a.ch) : (~IsInf(a.ch[i].nf) /\ ~IsInf(a.ch[j].nf)) =>
+                             Within(a.ch[i].nf - a.ch[i].nfRip, a.ch[j].nf - a.ch[j].nfRip, tol)
+\* no memory: what a crossing does to each channel (gain, NF) is what a FRESH amplifier with the same settings does to the
+\* same spectral information (fresh = 1: the event carries that reference crossing)
+AmpNoMemory(a, tol) == a.fresh = 1 => \A i \in 1..Len(a.ch) : /\ Within(a.ch[i].gain, a.ch[i].gainFresh, tol)
+                                                               /\ Within(a.ch[i].nf, a.ch[i].nfFresh, tol)
 \* the reported output power is the power that left the gain block
 AmpPoutReported(a, tol) == Within(a.poutObs, a.poutTot + a.outVoa, tol)
 \* out-of-band channels are not amplified: inb / outb = channels [f, w] entering / leaving, band = [fmin, fmax]
@@ -95,7 +105,7 @@ AmpBandLaw(inb, outb, band) ==
    /\ \A j \in 1..Len(outb) : \E i \in 1..Len(inb) : inb[i].f = outb[j].f
 
 \* --- NF gain sweep of one amplifier type: pts = <<[g, nf]>> with strictly increasing g, s = [gainMin, flatMax,
-\*     nfMin, nfMax, minmax (1 = min/max-NF model)] -----------------------------------------------------------
+\*     nfMin, nfMax, minmax (1 = min/max-NF model), poly (1 = polynomial model), dual (1 = dual stage)] -----------------------------------------------------------
 SweepAt(pts, g)      == CHOOSE i \in 1..Len(pts) : pts[i].g = g
 SweepHas(pts, g)     == \E i \in 1..Len(pts) : pts[i].g = g
 SweepNfMinAtFlatMax(s, pts, tol) == (s.minmax = 1 /\ SweepHas(pts, s.flatMax)) =>
@@ -104,7 +114,14 @@ SweepNfMaxAtGainMin(s, pts, tol) == (s.minmax = 1 /\ SweepHas(pts, s.gainMin)) =
                                        Within(pts[SweepAt(pts, s.gainMin)].nf, s.nfMax, tol)
 SweepNonIncreasing(s, pts, tol)  == s.minmax = 1 =>
                                        \A i, j \in 1..Len(pts) : pts[i].g < pts[j].g => pts[j].nf <= pts[i].nf + tol
-SweepDbForDbBelowMin(s, pts, tol) == SweepHas(pts, s.gainMin) =>
+\* every model: in the extended gain range (at and above the maximum flat gain) NF never rises with gain ...
+SweepNonIncreasingExtended(s, pts, tol) ==
+   \A i, j \in 1..Len(pts) : (s.flatMax <= pts[i].g /\ pts[i].g < pts[j].g) => pts[j].nf <= Plus(pts[i].nf, tol)
+\* ... and the polynomial model (NF a function of the gain deficit below flatMax) stays at its flatMax value there
+SweepClampAboveMax(s, pts, tol) == (s.poly = 1 /\ SweepHas(pts, s.flatMax)) =>
+   \A i \in 1..Len(pts) : pts[i].g > s.flatMax => Within(pts[i].nf, pts[SweepAt(pts, s.flatMax)].nf, tol)
+\* single-stage models: below the minimum gain NF grows dB for dB (padding)
+SweepDbForDbBelowMin(s, pts, tol) == (s.dual = 0 /\ SweepHas(pts, s.gainMin)) =>
                                        \A i \in 1..Len(pts) : pts[i].g < s.gainMin =>
                                           Within(pts[i].nf, Plus(pts[SweepAt(pts, s.gainMin)].nf, s.gainMin - pts[i].g), tol)
 
